@@ -278,7 +278,16 @@ ssize_t write(int fd, const void *b, size_t n)
     init();
     if (g_stdio && (fd == 1 || fd == 2) && g_rootlen) {
         int ie, sw;
-        struct op o = begin("stdio", fd == 1 ? "<stdout>" : "<stderr>", NULL, fd, (long)n, 0, &ie, &sw);
+        /* the tail of the line (after the timestamp / level / module prefix) is recorded so that the harness can tell
+         * which log line an operation number refers to */
+        char snip[121];
+        size_t off = n > 120 ? n - 120 : 0, m = 0;
+        for (size_t i = off; i < n && m < sizeof snip - 1; i++) {
+            char c = ((const char *)b)[i];
+            snip[m++] = (c == '\n' || c == '\r' || c == '>' ) ? ' ' : c;
+        }
+        snip[m] = 0;
+        struct op o = begin("stdio", fd == 1 ? "<stdout>" : "<stderr>", snip, fd, (long)n, 0, &ie, &sw);
         long r = raw_write(fd, b, n);
         int e = errno;
         end(o, r, e);
